@@ -144,6 +144,8 @@ def safe_eval(expr: str, env: dict):
 			return env[n.id]
 		if isinstance(n, ast.Attribute) and n.attr == 'value' and isinstance(n.value, ast.Attribute) and isinstance(n.value.value, ast.Name):
 			return env[n.value.attr]
+		if isinstance(n, ast.Attribute) and n.attr == 'value' and isinstance(n.value, ast.Attribute) and isinstance(n.value.value, ast.Attribute):
+			return env[f'{n.value.value.value.id}.{n.value.attr}']  # P.A.M0.value: the enum A nested in class P
 		raise core.HarnessError(f'generator produced an unexpected construct: {ast.dump(n)}')
 
 	return ev(ast.parse(expr, mode='eval').body)
@@ -179,13 +181,24 @@ def cases(draw):
 	make(members_a, bare_a, [], 'M', rnd.randint(1, 6))
 	# inside B, members of A are reachable as A.Mi.value; python-side they are plain names in env
 	other = [f'A.{n}.value' for n in bare_a]
+	# a second enum with the same class name and member names, nested in class P: P.A.Mi is another symbol than A.Mi
+	nested: list[dict] = []
+	if rnd.random() < 0.4:
+		for i in range(rnd.randint(1, 3)):
+			value = rnd.choice([16 + i, 100 * (i + 1), -3 - i])
+			nested.append({'name': f'M{i}', 'expr': str(value)})
+			env[f'P.M{i}'] = value
+			other.append(f'P.A.M{i}.value')
 	bare_b: list[str] = []
-	make(members_b, bare_b, other, 'N', rnd.randint(0, 5))
-	return {'a': members_a, 'b': members_b}
+	make(members_b, bare_b, other, 'N', rnd.randint(0 if not nested else 2, 5))
+	return {'a': members_a, 'b': members_b, 'p': nested}
 
 
 def source_of(case: dict) -> str:
-	lines = ['from enum import Enum', 'class A(Enum):']
+	lines = ['from enum import Enum']
+	if case.get('p'):
+		lines += ['class P:', '\tclass A(Enum):'] + [f'\t\t{m["name"]} = {m["expr"]}' for m in case['p']]
+	lines += ['class A(Enum):']
 	lines += [f'\t{m["name"]} = {m["expr"]}' for m in case['a']]
 	if case['b']:
 		lines += ['class B(Enum):']
